@@ -14,8 +14,8 @@ pub const SPEC: PropSpec = PropSpec {
 	level: "exploration",
 	rule: "three kinds of case. (parsed) random spelling with extra attributes -> Schema::json() must be JSON-equal (same keys, same order) to the source and contain no insignificant whitespace (independent tokenizer). (built) node graph assembled through the public builder API with unique fullnames, with DAG sharing of named nodes, cycles through records, and every namespace arrangement at an edge incl. null-namespace types referenced from inside a namespace (not expressible by the text generator) -> Schema::json() and serde_json::to_string(&SchemaMut) are read by the independent reference resolver and must be bisimilar to the built graph; re-parsing with the crate must give the same fingerprint. (edited) parsed document + nodes_mut() no-op edit -> regenerated JSON, same check. (inexpressible) a cycle through unnamed nodes only, or a logical type on a union, must give Err. distinct by hash(graph shape, json text)",
 	assumptions: &["numbers in extra attributes are small integers (JSON numbers re-rendered by serde_json stay equal)"],
-	cases: (50_000, 5_000_000),
-	secs: (45, 600),
+	cases: (50_000_000, 4_000_000_000),
+	secs: (30, 600),
 	required: &["parsed_json_preserved", "built_json_equivalent", "edited_json_equivalent", "inexpressible_rejected", "null_ns_type_referenced_from_namespace"],
 	run_case,
 	once: None,
@@ -71,7 +71,56 @@ fn add_free_references(rs: &mut RSchema, rng: &mut Rng) -> bool {
 			_ => {}
 		}
 	}
+	// share unnamed nodes too (a DAG the JSON has to duplicate), as long as no cycle made of
+	// unnamed nodes only appears
+	let containers: Vec<Id> = rs
+		.reachable()
+		.into_iter()
+		.filter(|&i| matches!(rs.nodes[i].kind, Kind::Array(_) | Kind::Map(_)))
+		.collect();
+	if containers.len() >= 2 {
+		for _ in 0..2 {
+			let p = *rng.pick(&containers);
+			let target = *rng.pick(&containers);
+			let old = rs.nodes[p].kind.clone();
+			match &mut rs.nodes[p].kind {
+				Kind::Array(i) | Kind::Map(i) => *i = target,
+				_ => {}
+			}
+			if has_unnamed_cycle(rs) {
+				rs.nodes[p].kind = old;
+			}
+		}
+	}
 	changed
+}
+
+/// a cycle that goes through arrays / maps / unions only
+fn has_unnamed_cycle(rs: &RSchema) -> bool {
+	fn visit(rs: &RSchema, id: Id, on_stack: &mut Vec<bool>, done: &mut Vec<bool>) -> bool {
+		if id >= rs.nodes.len() || done[id] {
+			return false;
+		}
+		if on_stack[id] {
+			return true;
+		}
+		let next: Vec<Id> = match &rs.nodes[id].kind {
+			Kind::Array(i) | Kind::Map(i) => vec![*i],
+			Kind::Union(v) => v.clone(),
+			_ => return false,
+		};
+		on_stack[id] = true;
+		for n in next {
+			if visit(rs, n, on_stack, done) {
+				return true;
+			}
+		}
+		on_stack[id] = false;
+		done[id] = true;
+		false
+	}
+	let n = rs.nodes.len();
+	(0..n).any(|i| visit(rs, i, &mut vec![false; n], &mut vec![false; n]))
 }
 
 fn check_regenerated(ctx: &mut Ctx, case_seed: u64, what: &str, built: &RSchema, json_text: &str, fp: Option<[u8; 8]>) -> bool {
